@@ -997,6 +997,17 @@ func (e *relExec) doRecover() string {
 			if !ok {
 				e.failf("chain-broken: %s was confirmed by the recovery poll but not pushed as a placeholder", n)
 			}
+			// a positive answer (passed or waiting) is the only confirmation this file will ever get: it is queued
+			// as fully allocated, so it is never sent or polled again; the done mark must be set now
+			marked := false
+			for _, t := range e.trace {
+				if strings.HasPrefix(t, "cdone:"+esc(n)+":") {
+					marked = true
+				}
+			}
+			if !marked {
+				e.failf("confirmed-not-marked: %s was confirmed by the recovery poll but Cache.Done was not called (it is queued as delivered and will not be polled again)", n)
+			}
 		}
 	}
 	// oracle recover_loses_nothing: a cached file that is not done, not ignored, unchanged on
